@@ -16,6 +16,7 @@ from xsdata.formats.dataclass.context import XmlContext
 from xsdata.formats.dataclass.serializers import XmlSerializer
 from xsdata.formats.dataclass.serializers.config import SerializerConfig
 
+from .. import roundtrip_bind as rb
 from .. import writer_bind as wb
 from .. import zoo
 from ..policy import writer_cfg
@@ -263,6 +264,7 @@ def run(ctx):
     from .. import compound_bind
 
     compound_bind.run_phase(ctx, documents_only=True)
+    anytype_markers(ctx)
 
 
 def replay(ctx, doc):
@@ -272,3 +274,53 @@ def replay(ctx, doc):
     else:
         print("replay of recorded-trace cases: re-run the check with the same seed:", doc.get("seed"))
         print(json.dumps(case, indent=1)[:3000])
+
+
+def anytype_markers(ctx):
+    """xs:anyType element fields (typed `object`): a value that is not a string carries an xsi:type marker naming a
+    built-in type whose lexical space holds the text written - whatever the value, the falsy ones included; a string
+    carries none.  Read with the independent infoset parser."""
+    import xml.etree.ElementTree as ET
+    from decimal import Decimal
+
+    from xsdata.models.datatype import XmlDate
+
+    from ..poly_models import AnyHolder
+
+    XSI_TYPE = "{http://www.w3.org/2001/XMLSchema-instance}type"
+    XS = "http://www.w3.org/2001/XMLSchema"
+    numeric = {"short", "int", "integer", "long", "byte", "unsignedByte", "unsignedShort", "unsignedInt", "unsignedLong", "nonNegativeInteger",
+               "positiveInteger", "negativeInteger", "nonPositiveInteger", "decimal", "float", "double"}
+    values = [0, 5, -7, False, True, 0.0, 1.5, Decimal("0"), Decimal("1.50"), XmlDate(2020, 2, 29), "", "s", "0"]
+    xctx = XmlContext()
+    for be in ("native", "lxml"):
+        for nm in (None, {None: "urn:d"}, {"xs": "urn:not-xs"}):
+            obj = AnyHolder(v=values[0], w=list(values), last="z")
+            try:
+                text = rb.render(obj, xctx, be, ns_map=dict(nm) if nm else None)
+                root = ET.fromstring(text)
+            except Exception as ex:  # noqa: BLE001
+                ctx.violation(f"anyType markers: render / re-read failed ({be}): {type(ex).__name__}: {ex}", {"backend": be, "ns_map": repr(nm)})
+                continue
+            # prefix -> namespace as declared anywhere in the document (the writer declares on demand)
+            import re
+
+            decls = dict(re.findall(r'xmlns:([A-Za-z0-9_]+)="([^"]*)"', text))
+            els = [e for e in root if e.tag.rpartition("}")[2] == "w"]
+            for val, el in zip(values, els):
+                ctx.case(("anytype-marker", be, repr(nm), repr(val)))
+                marker = el.get(XSI_TYPE)
+                info = {"backend": be, "ns_map": repr(nm), "value": repr(val), "text": text}
+                if isinstance(val, str):
+                    if marker is not None and marker.rpartition(":")[2] != "string":
+                        ctx.violation(f"anyType element holding the string {val!r} carries xsi:type={marker!r}", info)
+                    continue
+                if marker is None:
+                    ctx.violation(f"anyType element holding {val!r} ({type(val).__name__}) carries no xsi:type marker: {ET.tostring(el, encoding='unicode')}", info)
+                    continue
+                pfx, _, local = marker.rpartition(":")
+                if decls.get(pfx) != XS:
+                    ctx.violation(f"xsi:type marker {marker!r} of {val!r}: prefix {pfx!r} is not bound to the XML Schema namespace ({decls.get(pfx)!r})", info)
+                want = {bool: {"boolean"}, int: numeric - {"decimal", "float", "double"}, float: {"float", "double"}, Decimal: {"decimal"}, XmlDate: {"date"}}[type(val)]
+                if local not in want:
+                    ctx.violation(f"xsi:type marker {marker!r} of {val!r} ({type(val).__name__}) does not name a type of its kind", info)
